@@ -89,15 +89,18 @@ Qed.
 Lemma scq_exists_invs_new : forall s i z k, scq_exists (s <| s_invs ::= fun l => l ++ [(i, new_inv z)] |>) k = scq_exists s k.
 Proof. reflexivity. Qed.
 
-Lemma NX_get_or_create_invocation : forall ext k p s, scq_exists s k = true -> NX ext s -> NX ext (get_or_create_invocation k p s).
+Lemma NX_get_or_create_invocation' : forall ext k p s, (Pan s \/ scq_exists s k = true) -> NX ext s -> NX ext (get_or_create_invocation k p s).
 Proof.
   intros ext k p s He [A [B C]]. split; [apply XS_get_or_create_invocation; exact A|]. split.
   - eapply TK_frame; [|exact B]. apply goc_frames.
   - unfold get_or_create_invocation. clear A B. revert s He C. induction (prefixes_from [] p) as [|pp l IH]; intros s He C; cbn [fold_left]; [exact C|].
     destruct (inv_exists s (mkI k pp)) eqn:Ei; [apply IH; assumption|].
-    apply IH; [exact He|].
-    destruct C as [Hp|[HC HM]]; [left; t_pan|right]. split; [t_CQ|apply MI_invs_new; [exact He|exact HM]].
+    apply IH; [destruct He as [Hp|He]; [left; t_pan|right; exact He]|].
+    destruct C as [Hp|[HC HM]]; [left; t_pan|]. destruct He as [Hp|He]; [left; t_pan|right]. split; [t_CQ|apply MI_invs_new; [exact He|exact HM]].
 Qed.
+
+Lemma NX_get_or_create_invocation : forall ext k p s, scq_exists s k = true -> NX ext s -> NX ext (get_or_create_invocation k p s).
+Proof. intros ext k p s He. apply NX_get_or_create_invocation'. right. exact He. Qed.
 
 Ltac nx_leaf0 :=
   idtac;
